@@ -1,6 +1,7 @@
 import Rangers.Basic.Hex
 import Rangers.Basic.Line
 import Rangers.Model.TrieDB
+import Rangers.Model.StateCommit
 /-!
 Line-protocol driver for C03 (see harness/cmd/c03).  Ops:
 
@@ -194,6 +195,15 @@ def lineStep (ds : DS) (line : String) : DS × String :=
   | ["fail?", root, k, obs, refused] =>
     match hashOf? root, k.toNat?, batches? obs, hashList? refused with
     | some r, some k, some bs, some rf => withPending ds ("err " ++ showBatches bs) true fun d => doCommitLoose d r (some k) bs rf
+    | _, _, _, _ => (ds, "bad-op")
+  | ["obj", sui, dirty, empty, del] =>
+    -- the per-object step of AccountDB.Commit (Model/StateCommit.lean) on the flags observed before the commit
+    match sui.toNat?, dirty.toNat?, empty.toNat?, del.toNat? with
+    | some s, some d, some e, some dl =>
+      match Rangers.Model.StateCommit.commitAction (dl != 0) ⟨s != 0, d != 0, e != 0⟩ with
+      | .delete => (ds, "gone")
+      | .none => (ds, "kept-same")
+      | .update => (ds, "kept")
     | _, _, _, _ => (ds, "bad-op")
   | ["prefix", j, roots] =>
     match j.toNat?, hashList? roots with
